@@ -79,6 +79,9 @@ func (c *ctx) probeConn(i int) {
 			if k >= len(invs) {
 				if quiet {
 					c.v("C05/packet-not-delivered", "conn %d: packet op %d %s was sent in full and never reached a handler (got %d invocations)", id, pr.Op, hstr(pr.H), len(invs))
+					if sessionsOn(cs) > 1 {
+						c.v("C09/multiplexed-session-disturbed", "conn %d carries %d sessions; packet op %d %s of one of them never reached a handler although every packet follows the rules: what happened to another session's request ended this one", id, sessionsOn(cs), pr.Op, hstr(pr.H))
+					}
 					if pr.Handler == 0 && served[pr.H.Session] {
 						c.v("C08/finished-session-remembered", "conn %d: packet op %d %s reuses the id of a session that finished earlier on this connection; it must start from the initial handler, but no handler ran (something of the finished session was retained)", id, pr.Op, hstr(pr.H))
 					}
@@ -182,6 +185,17 @@ func (c *ctx) probeConn(i int) {
 	}
 replies:
 	c.probeReplies(id, cs, srvKey, expReplies, replies, tail, complete, quiet)
+}
+
+// sessionsOn counts the distinct session ids a client script uses.
+func sessionsOn(cs *plan.ClientSpec) int {
+	m := map[uint32]bool{}
+	for _, o := range cs.Ops {
+		if o.Kind == "send" && o.Pkt != nil {
+			m[o.Pkt.Session] = true
+		}
+	}
+	return len(m)
 }
 
 // replyWriteRefused: inside the given handler invocation the transport refused a write
